@@ -1,6 +1,17 @@
 (* C01 — relayed byte streams arrive exactly once, in order, unmodified.
-   Statements only; proofs are in Net/ConnFacts.v and Net/HandlerFacts.v. *)
-From PM Require Import Lib.Bytes Net.Conn Net.ConnFacts.
+   Statements only; proofs are in Net/ConnFacts.v, Net/HandlerFacts.v, Net/TunnelFacts.v.
+
+   Vocabulary (Net/Handler.v): one [event] = one handle_events(readables, writables) call of the real
+   handler: it names the ready descriptors and the outcome of every recv()/send() made in that call
+   (data piece | EOF | reset | timeout | OS error;  Accept k = the kernel takes at most k bytes |
+   would-block | broken pipe | OS error).  An event LIST therefore is a segmentation of both byte
+   streams x an interleaving of arrival/readiness/drain events x a short-write pattern.  All theorems
+   quantify over every event list, every max_sendbuf_size, every upstream byte string.
+   [g_up_rcvd s] / [g_cl_rcvd s] are ghost histories: every byte upstream.recv() (resp. the client recv()
+   after the exchange was established) has returned, in order (C01_histories_are_recv_results).
+   [delivered_client s] = bytes the client socket has accepted, [pending_client s] = still buffered. *)
+From PM Require Import Lib.Bytes Net.Conn Net.ConnFacts Net.Handler Net.HandlerFacts Net.Tunnel Net.TunnelFacts.
+From Coq Require Import ZArith.
 
 (* flush never loses, duplicates or reorders: what the socket has taken followed by what is still
    buffered is the same byte string before and after flush, under EVERY send outcome (full write,
@@ -11,3 +22,88 @@ Theorem C01_flush_conservation : forall max o c c' r mv,
   sent (queue mv c) ++ pending (queue mv c) = (sent c ++ pending c) ++ mv.
 Proof. intros; split; [apply flush_conservation|apply queue_conservation]. Qed.
 Print Assumptions C01_flush_conservation.
+
+(* upstream -> client.  After ANY event list, once the exchange is established (HTTP request forwarded
+   or CONNECT acknowledged; the state may even be the one in which teardown was just decided):
+   bytes the client received ++ bytes still buffered for it = ack ++ every byte the upstream sent,
+   where ack = the '200 Connection established' packet for tunnels and nothing otherwise.
+   Hence each upstream byte is delivered at most once, in order, unmodified, and the only injected
+   bytes are the acknowledgement ahead of tunnel data. *)
+Theorem C01_relay_invariant_client : forall c t0 evs s r,
+  run c (init t0) evs = (s, r) -> established s ->
+  delivered_client s ++ pending_client s = ack_of c s ++ g_up_rcvd s.
+Proof. exact relay_invariant_client. Qed.
+Print Assumptions C01_relay_invariant_client.
+
+(* client -> upstream, for tunnels *)
+Theorem C01_relay_invariant_upstream : forall c t0 evs s r,
+  run c (init t0) evs = (s, r) -> established s -> is_tunnel s = true ->
+  delivered_upstream s ++ pending_upstream s = g_cl_rcvd s.
+Proof. exact relay_invariant_upstream. Qed.
+Print Assumptions C01_relay_invariant_upstream.
+
+(* the ghost histories are exactly the recv() results of the calls: in one handle_events call each
+   history either stays or grows by the data piece that call's recv() on that socket returned *)
+Theorem C01_histories_are_recv_results : forall c ev s s' r,
+  handle_events c ev s = (s', r) ->
+  (g_up_rcvd s' = g_up_rcvd s \/ (u_r ev = true /\ g_up_rcvd s' = g_up_rcvd s ++ recv_data (u_recv ev))) /\
+  (g_cl_rcvd s' = g_cl_rcvd s \/ (c_r ev = true /\ g_cl_rcvd s' = g_cl_rcvd s ++ recv_data (c_recv ev))).
+Proof. exact ghost_handle_events. Qed.
+Print Assumptions C01_histories_are_recv_results.
+
+(* progress: a call in which the client socket is reported writable and accepts k > 0 bytes while a
+   non-empty piece is at the head of the buffer delivers at least one more byte *)
+Theorem C01_progress : forall c ev s s' r mv rest k,
+  c_w ev = true -> buffer (work s) = mv :: rest -> mv <> [] -> c_send ev = Accept k -> 0 < k ->
+  step c s ev = (s', r) ->
+  (length (delivered_client s) < length (delivered_client s'))%nat.
+Proof. exact step_progress. Qed.
+Print Assumptions C01_progress.
+
+(* drain: any continuation made of client-writable events on which the kernel accepts k > 0 bytes
+   (nothing else arriving), at least "bytes + pieces pending" many, empties the buffer without an
+   exception, and the client has then received everything that was pending, in order *)
+Theorem C01_drains : forall c evs s,
+  Forall drain_ev evs -> (backlog (work s) <= length evs)%nat ->
+  exists s' r, run c s evs = (s', r) /\ r <> Raised /\
+               pending_client s' = [] /\ delivered_client s' = delivered_client s ++ pending_client s.
+Proof.
+  intros c evs s H1 H2. destruct (drains c evs s H1 H2) as [s' [r [A [B [C D]]]]].
+  exists s', r. repeat split; auto. unfold pending_client, pending. rewrite C. reflexivity.
+Qed.
+Print Assumptions C01_drains.
+
+(* the same at the level of one TcpConnection (either peer): enough effective flushes drain it *)
+Theorem C01_conn_drains : forall max os c,
+  forallb effective os = true -> (backlog c <= length os)%nat ->
+  exists c', flush_many max os c = (c', Flushed 0) /\ buffer c' = [] /\ sent c' = sent c ++ pending c.
+Proof. exact flush_many_drains. Qed.
+Print Assumptions C01_conn_drains.
+
+(* BaseTcpTunnelHandler (tcp_tunnel.py): both directions, every event list *)
+Theorem C01_tunnel_handler_invariant : forall c t0 evs s r u,
+  tunnel_run c (init t0) evs = (s, r) -> upstream s = Some u ->
+  sent (work s) ++ pending (work s) = ack c ++ g_up_rcvd s /\
+  sent u ++ pending u = g_cl_rcvd s.
+Proof. exact tunnel_relay_invariant. Qed.
+Print Assumptions C01_tunnel_handler_invariant.
+
+(* ---- non-vacuity: a CONNECT tunnel, acknowledgement and upstream data crossing max_send = 3 with
+   short writes and a would-block; the hypotheses of the theorems are met by a concrete run *)
+Definition ex_cfg : cfg := mkCfg 3 (bs "HTTP/1.1 200 Connection established") 10240 true.
+Definition ex_ev (cr cw ur uw : bool) (cs : outcome) (crv urv : recv_res) (rq : req_outcome) : event :=
+  mkEvent 5 cr cw ur uw cs (Accept 100) crv urv rq DNothing.
+Definition ex_events : list event :=
+  [ ex_ev true false false false (Accept 100) (RData (bs "CONNECT h:443 HTTP/1.1")) ROsErr (RProxy true []);
+    ex_ev false true true false (Accept 2) ROsErr (RData [0; 255; 13; 10; 7]) RIncomplete;
+    ex_ev true true true true WouldBlock (RData [1; 2; 3; 4]) (RData [9]) RIncomplete;
+    ex_ev false true false true (Accept 100) ROsErr ROsErr RIncomplete ].
+Example C01_nonvacuous :
+  let '(s, r) := run ex_cfg (init 0) ex_events in
+  r = Continue /\ established s /\ is_tunnel s = true /\
+  g_up_rcvd s = [0; 255; 13; 10; 7; 9] /\ g_cl_rcvd s = [1; 2; 3; 4] /\
+  delivered_client s = bs "HTTP/" /\ delivered_upstream s = [1; 2; 3] /\ pending_upstream s = [4] /\
+  has_buffer (work s) = true.
+Proof.
+  vm_compute. repeat split; try reflexivity. eexists; reflexivity.
+Qed.
